@@ -24,6 +24,7 @@ HARNESSES = [
     H("c11_graph_as_dataset_mutations", "MutableDataset for GraphAsDataset: insert/remove in the default graph reach the graph as the same operation with the same terms and flag; a named graph is refused (insert) / empty (remove)", bound="symbolic flag, default/named graph, insert/remove", timeout=900),
     H("c11_union_graph_projections", "UnionGraph's term enumerations are those of its triples: a term occurring only as a graph name is not enumerated; subjects/predicates/objects are the triple's", bound="one quad (1,2,3) in graph 7", timeout=900),
     H("c11_graph_as_dataset_projections", "GraphAsDataset answers each term enumeration (subjects ... literals, variables) with the wrapped graph's enumeration of the same name; graph_names() is empty", bound="recording graph with one sentinel per enumeration", timeout=900),
+    H("c11_graph_as_dataset_any_matcher", "GraphAsDataset::quads_matching with ANY graph-name matcher (only matches() known, symbolic answers): the graph's triples are shown, in the default graph, iff the matcher accepts the default graph", bound="one recorded triple; the matcher's two answers symbolic", timeout=900),
     H("c11_graph_as_dataset_queries", "GraphAsDataset::quads_matching forwards iff the selector accepts the default graph; quads come back in the default graph; contains() only there", bound=B, timeout=900),
 ]
 
